@@ -4,6 +4,7 @@ import (
 	"bytes"
 	"encoding/hex"
 	"fmt"
+	"strings"
 
 	"verifharness/internal/vstat"
 )
@@ -25,6 +26,7 @@ type Info16H struct {
 	AnyNonTrivial bool // some round's input is non-trivial by the one-shot rule
 	Offsets       int
 	Kept          int
+	Scribbled     int // byte strings returned with newBuf=true that were overwritten in place by the harness (their owner)
 }
 
 // NonTrivial: the memory was really re-used (a later round changed it) - the part of the domain a one-shot input cannot reach.
@@ -51,19 +53,31 @@ func (i Info16H) Classes() []string {
 	if i.Kept > 0 {
 		c = append(c, "history_earlier_newBuf_results_rechecked")
 	}
+	if i.Scribbled > 0 {
+		c = append(c, "history_newBuf_results_overwritten_in_place_then_decoded_again")
+	}
 	return c
 }
 
 type kept16 struct {
-	what string
-	view []byte // the value as returned (newBuf=true), still referenced
-	snap []byte // what it was when it was returned
+	what  string
+	view  []byte // the value as returned (newBuf=true), still referenced
+	snap  []byte // what it was when it was returned / what its owner has turned it into since
+	owned bool   // a []byte (UnmarshalBytes): the caller may write it; a string's bytes are never written
+	done  bool   // already overwritten by its owner
 }
+
+// owned: the result is a byte slice that belongs to the caller.
+func (d decoder16) owned() bool { return d.newBuf && strings.HasPrefix(d.name, "UnmarshalBytes") }
 
 // Run16H executes a history: one arena per case and presentation (cap == len, cap > len); every round overwrites it
 // in place and every Unmarshal function is applied to the whole input and to the suffixes that start where the
 // harness's own reading of the length prefixes puts the next items (at most 6 offsets). Oracle per call: C16's.
 // Additionally everything returned with newBuf=true in an earlier round must still hold the bytes it held then.
+// At the end of every round the owner of each byte slice returned with newBuf=true in that round overwrites it in place
+// (every byte up to the capacity is flipped); the newBuf=true decoders are then applied to the same memory once more and,
+// in the following rounds, to whatever comes next: the per-call oracle ("a copy of a range of the input") holds on, and
+// the overwritten values keep what their owner wrote.
 func Run16H(c Case16H) (info Info16H, v *vstat.Violation) {
 	ins := make([][]byte, len(c.Ins))
 	maxLen := 0
@@ -124,15 +138,56 @@ func Run16H(c Case16H) (info Info16H, v *vstat.Violation) {
 						return info, v
 					}
 					if d.newBuf && o.err == nil && len(o.data) > 0 && len(kept) < 256 {
-						kept = append(kept, kept16{what: fmt.Sprintf("%s in %s at offset %d", d.name, form, off), view: o.data, snap: append([]byte(nil), o.data...)})
+						kept = append(kept, kept16{what: fmt.Sprintf("%s in %s at offset %d", d.name, form, off), view: o.data, snap: append([]byte(nil), o.data...), owned: d.owned()})
 					}
 				}
 			}
 		}
-		for _, k := range kept {
-			if !bytes.Equal(k.view, k.snap) {
-				return info, vstat.V("xbin:earlier-newbuf-result-changed", "after round %d: the value returned by %s was %s and is now %s", r+1, k.what, short(k.snap), short(k.view))
+		checkKept := func(when string) *vstat.Violation {
+			for _, k := range kept {
+				if !bytes.Equal(k.view, k.snap) {
+					was := "was"
+					if k.done {
+						was = "was overwritten by its owner with"
+					}
+					return vstat.V("xbin:earlier-newbuf-result-changed", "%s round %d: the value returned by %s %s %s and is now %s", when, r+1, k.what, was, short(k.snap), short(k.view))
+				}
 			}
+			return nil
+		}
+		if v := checkKept("after"); v != nil {
+			return info, v
+		}
+		// the owner overwrites what this round returned to it with newBuf=true ...
+		scribbled := false
+		for i := range kept {
+			k := &kept[i]
+			if !k.owned || k.done {
+				continue
+			}
+			full := k.view[:cap(k.view)]
+			flip(full)
+			k.view, k.snap, k.done = full, append([]byte(nil), full...), true
+			info.Scribbled++
+			scribbled = true
+		}
+		if !scribbled {
+			continue
+		}
+		// ... and decodes the same memory again (one presentation: what matters here is the order of the events)
+		form := fmt.Sprintf("round %d of %d, cap==len, again after the newBuf=true results were overwritten in place", r+1, len(ins))
+		for _, off := range offs {
+			for _, d := range decoders16 {
+				if !d.newBuf {
+					continue
+				}
+				if _, v := check16(d, forms[0][off:], form); v != nil {
+					return info, v
+				}
+			}
+		}
+		if v := checkKept("after the second pass of"); v != nil {
+			return info, v
 		}
 	}
 	info.Kept = len(kept)
